@@ -5,6 +5,7 @@ schedule (which allocations collect, nursery or full).
 -/
 import LaytheVerif.Lemmas.AllocIntern
 import LaytheVerif.Lemmas.AllocGen
+import LaytheVerif.Lemmas.TraceCover
 namespace LaytheVerif.C05
 open LaytheVerif.Alloc
 
